@@ -1,3 +1,1109 @@
-"""C19.R — identifier templates (filled in below)."""
+"""C19.R — every identifier the emitted configuration refers to is defined under the same option values.
+
+Definitions: the value of an 'id' key of a dict literal (or `d['id'] = …` store) in the CLI builders and in the
+library's json_factory helpers, as a string template (constants, f-strings, concatenations; parameters are
+resolved through the call sites, `arg.<option>` through the option environment; anything else is a wildcard).
+A definition sitting in a slot its enclosing object's reader never looks at does not count (dead configuration).
+
+References: constant strings that reach a key the reader hands to process_object(s) (reader tables of
+sa.jsonkeys), through list literals, concatenations, append / extend / insert, filter(…), parameters and call
+sites; references with a wildcard are not checked.
+
+Every definition and reference carries the program points it depends on (its statement, the call sites used to
+resolve parameters).  For each reference the option values tested on the way to those points and to the points
+of its candidate definitions are enumerated; under each assignment the reference must not be reachable
+(specialised CFG + call-chain feasibility of props.c19_flow) without some matching definition being reachable.
+"""
+from __future__ import annotations
+
+import ast
+import itertools
+import re
+from typing import Dict, List, Optional, Set, Tuple
+
+from sa.loader import AnalysisError, Unsupported, dotted_name, norm_text
+from sa.report import where
+from props.c19_flow import ARG_NAMES, UNKNOWN, Flow, FnInfo, enclosing_fn, reach_from, specialised_reach
+
+OPT = 'opt'
+CMD = '__cmd__'
+
+
+def ENTRY_POINTS(flow):
+    return sorted(n for n in flow.referenced if n.startswith('build_'))
+
+_MISSING = '∅missing'
+STAR = ('*',)
+
+
+class S:
+    """a string template with the program points it depends on"""
+    __slots__ = ('parts', 'pts')
+
+    def __init__(self, parts, pts=()):
+        self.parts = tuple(parts)
+        self.pts = tuple(pts)
+
+    def concat(self, o):
+        return S(self.parts + o.parts, self.pts + o.pts)
+
+    def with_pt(self, pt):
+        return S(self.parts, self.pts + (pt,))
+
+    def concrete(self, env) -> Optional[str]:
+        out = []
+        for p in self.parts:
+            if isinstance(p, str):
+                out.append(p)
+            elif p[0] == OPT:
+                v = env.get(p[1], UNKNOWN)
+                if not isinstance(v, str):
+                    return None
+                out.append(v)
+            else:
+                return None
+        return ''.join(out)
+
+    def regex(self, env) -> str:
+        out = []
+        for p in self.parts:
+            if isinstance(p, str):
+                out.append(re.escape(p))
+            elif p[0] == OPT and isinstance(env.get(p[1], UNKNOWN), str):
+                out.append(re.escape(env[p[1]]))
+            else:
+                out.append('.*')
+        return ''.join(out)
+
+    def opts(self) -> Set[str]:
+        return {p[1] for p in self.parts if not isinstance(p, str) and p[0] == OPT}
+
+    def text(self):
+        return ''.join(p if isinstance(p, str) else ('{' + p[1] + '}' if p[0] == OPT else '*') for p in self.parts)
+
+
+class Collector:
+    def __init__(self, ctx, flow: Flow, readers):
+        self.ctx, self.flow, self.readers = ctx, flow, readers
+        self.factories: Dict[str, FnInfo] = {}     # "Class.json_factory" -> FnInfo (library)
+        self.factory_sites: Dict[str, List[Tuple[FnInfo, ast.Call]]] = {}
+        self._index_factories()
+
+    # -- functions and call sites ------------------------------------------------------
+    def _index_factories(self):
+        for infos in list(self.flow.fns.values()):
+            for fi in infos:
+                for c in ast.walk(fi.fn):
+                    if isinstance(c, ast.Call) and isinstance(c.func, ast.Attribute) and c.func.attr == 'json_factory' and enclosing_fn(c) is fi.fn:
+                        tgt = self.factory_of(c, fi)
+                        if tgt is not None:
+                            self.factory_sites.setdefault(tgt, []).append((fi, c))
+
+    def factory_of(self, call: ast.Call, fi: FnInfo) -> Optional[str]:
+        base = dotted_name(call.func.value)
+        if base is None:
+            return None
+        qual = self.ctx.prog.resolve_name(fi.module, base)
+        r = self.ctx.prog.resolve(qual) if qual else None
+        if not r or r[0] != 'class':
+            return None
+        ci = self.ctx.classes.classes.get(f"{r[1].name}.{r[2].name}")
+        if ci is None:
+            return None
+        got = ci.resolve('json_factory')
+        if got is None:
+            return None
+        key = f"{got[0].qualname}.json_factory"
+        if key not in self.factories:
+            try:
+                self.factories[key] = FnInfo(got[0].module, got[1])
+            except Exception:
+                return None
+        return key
+
+    def all_infos(self) -> List[FnInfo]:
+        out = [fi for infos in self.flow.fns.values() for fi in infos]
+        return out + list(self.factories.values())
+
+    def is_factory(self, fi: FnInfo) -> Optional[str]:
+        for k, v in self.factories.items():
+            if v is fi:
+                return k
+        return None
+
+    def sites_of(self, fi: FnInfo) -> List[Tuple[FnInfo, ast.Call]]:
+        k = self.is_factory(fi)
+        if k is not None:
+            return self.factory_sites.get(k, [])
+        return [(c_fi, c) for c_fi, c in self.flow.sites.get(fi.fn.name, []) if self.target_of(c, c_fi) is fi]
+
+    def target_of(self, call: ast.Call, fi: FnInfo) -> Optional[FnInfo]:
+        if isinstance(call.func, ast.Name):
+            infos = self.flow.fns.get(call.func.id, [])
+            if len(infos) == 1:
+                return infos[0]
+            for x in infos:
+                if x.module is fi.module:
+                    return x
+            return infos[0] if infos else None
+        if isinstance(call.func, ast.Attribute) and call.func.attr == 'json_factory':
+            k = self.factory_of(call, fi)
+            return self.factories.get(k) if k else None
+        return None
+
+    def arg_for(self, callee: FnInfo, call: ast.Call, pname: str) -> Optional[ast.AST]:
+        a = callee.fn.args
+        names = [x.arg for x in a.args]
+        if names and names[0] in ('cls', 'self'):
+            names = names[1:]
+        for k in call.keywords:
+            if k.arg == pname:
+                return k.value
+            if k.arg is None and isinstance(k.value, ast.Dict):       # **{'tensor': …}
+                for kk, vv in zip(k.value.keys, k.value.values):
+                    if isinstance(kk, ast.Constant) and kk.value == pname:
+                        return vv
+        if pname in names:
+            i = names.index(pname)
+            if i < len(call.args) and not any(isinstance(x, ast.Starred) for x in call.args[:i + 1]):
+                return call.args[i]
+            d = a.defaults
+            j = i - (len(names) - len(d))
+            if 0 <= j < len(d):
+                return d[j]
+        return None
+
+    # -- string collection ---------------------------------------------------------------
+    def pt(self, fi: FnInfo, node) -> Tuple[FnInfo, int]:
+        n = fi.stmt_node_of(node)
+        return (fi, n.id if n is not None else -1)
+
+    def strings(self, e, fi: FnInfo, depth=0, single=False, seen=frozenset()) -> Tuple[List[S], bool]:
+        """(templates, complete): the strings `e` may evaluate to / contain"""
+        if depth > 16:
+            return [S([STAR])], False
+        if isinstance(e, ast.Constant):
+            if isinstance(e.value, str):
+                return [S([e.value])], True
+            return [], True
+        if isinstance(e, ast.JoinedStr):
+            cur = [S([])]
+            comp = True
+            for v in e.values:
+                if isinstance(v, ast.Constant):
+                    opts_ = [S([str(v.value)])]
+                else:
+                    opts_, c = self.strings(v.value, fi, depth + 1, True, seen)
+                    if not opts_:
+                        opts_ = [S([STAR])]
+                    comp = comp and c
+                cur = [a.concat(b) for a in cur for b in opts_][:64]
+            return cur, comp
+        if isinstance(e, ast.Attribute) and isinstance(e.value, ast.Name) and e.value.id in ARG_NAMES:
+            return [S([(OPT, e.attr)])], True
+        if isinstance(e, (ast.List, ast.Tuple, ast.Set)):
+            out, comp = [], True
+            for x in e.elts:
+                if isinstance(x, ast.Dict):
+                    continue
+                if isinstance(x, ast.Starred):
+                    x = x.value
+                s, c = self.strings(x, fi, depth + 1, False, seen)
+                out += s
+                comp = comp and c
+            return out, comp
+        if isinstance(e, ast.Dict):
+            return [], True
+        if isinstance(e, ast.IfExp):
+            a, ca = self.strings(e.body, fi, depth + 1, single, seen)
+            b, cb = self.strings(e.orelse, fi, depth + 1, single, seen)
+            return a + b, ca and cb
+        if isinstance(e, ast.BinOp) and isinstance(e.op, ast.Add):
+            a, ca = self.strings(e.left, fi, depth + 1, single, seen)
+            b, cb = self.strings(e.right, fi, depth + 1, single, seen)
+            if single or (self.is_scalar_string(e.left, fi) and self.is_scalar_string(e.right, fi)):
+                if not a:
+                    a = [S([STAR])]
+                if not b:
+                    b = [S([STAR])]
+                return [x.concat(y) for x in a for y in b][:64], ca and cb
+            return a + b, ca and cb
+        if isinstance(e, ast.Name):
+            return self.name_strings(e.id, fi, e, depth, single, seen)
+        if isinstance(e, ast.Subscript):
+            # x['id'] of a local bound to a literal / factory result
+            if isinstance(e.slice, ast.Constant) and e.slice.value == 'id' and isinstance(e.value, ast.Name):
+                out = []
+                for d in self.value_sources(e.value.id, fi):
+                    out += self.ids_of_value(d, fi, depth + 1)
+                if out:
+                    return out, False
+            return [S([STAR])], False
+        if isinstance(e, ast.Call):
+            fn = e.func
+            name = fn.id if isinstance(fn, ast.Name) else (fn.attr if isinstance(fn, ast.Attribute) else None)
+            if name in ('list', 'tuple', 'sorted', 'set') and len(e.args) == 1:
+                return self.strings(e.args[0], fi, depth + 1, single, seen)
+            if name == 'filter' and len(e.args) == 2 and isinstance(e.args[0], ast.Lambda):
+                s, c = self.strings(e.args[1], fi, depth + 1, single, seen)
+                lam = e.args[0]
+                drop = set()
+                b = lam.body
+                if isinstance(b, ast.Compare) and len(b.ops) == 1:
+                    if isinstance(b.ops[0], ast.NotEq):
+                        for side in (b.left, b.comparators[0]):
+                            if isinstance(side, ast.Constant) and isinstance(side.value, str):
+                                drop.add(side.value)
+                    elif isinstance(b.ops[0], ast.NotIn):
+                        vals, _ = self.strings(b.comparators[0], fi, depth + 1, False, seen)
+                        drop |= {v.concrete({}) for v in vals if v.concrete({}) is not None}
+                    else:
+                        return [], False
+                else:
+                    return [], False
+                return [x for x in s if x.concrete({}) not in drop], c
+            tgt = self.target_of(e, fi) if name else None
+            if tgt is not None and self.is_factory(tgt) is None:
+                # a CLI helper returning strings / lists of strings
+                out, comp = [], True
+                for r in [n for n in ast.walk(tgt.fn) if isinstance(n, ast.Return) and n.value is not None and enclosing_fn(n) is tgt.fn]:
+                    if (tgt.fn.name, id(e)) in seen:
+                        continue
+                    vals = r.value.elts if isinstance(r.value, ast.Tuple) else [r.value]
+                    for v in vals[:1] if single else vals:
+                        s, c = self.strings(v, tgt, depth + 1, single, seen | {(tgt.fn.name, id(e))})
+                        out += [x.with_pt(self.pt(tgt, r)).with_pt(self.pt(fi, e)) for x in s]
+                        comp = comp and c
+                return out, False
+            return [], False
+        if isinstance(e, ast.ListComp) and len(e.generators) == 1 and not e.generators[0].ifs and isinstance(e.generators[0].target, ast.Name):
+            g = e.generators[0]
+            items, c = self.strings(g.iter, fi, depth + 1, False, seen)
+            if c and items and all(x.concrete({}) is not None for x in items):
+                out = []
+                comp = True
+                for it in items:
+                    s, cc = self.strings(_subst_name(e.elt, g.target.id, it.concrete({})), fi, depth + 1, True, seen)
+                    out += s
+                    comp = comp and cc
+                return out, comp
+            s, _ = self.strings(_subst_name(e.elt, g.target.id, None), fi, depth + 1, True, seen)
+            return s, False
+        return [], False
+
+    def is_scalar_string(self, e, fi) -> bool:
+        if isinstance(e, ast.Constant):
+            return isinstance(e.value, str)
+        if isinstance(e, ast.JoinedStr):
+            return True
+        if isinstance(e, ast.BinOp) and isinstance(e.op, ast.Add):
+            return self.is_scalar_string(e.left, fi) or self.is_scalar_string(e.right, fi)
+        if isinstance(e, ast.Subscript) and isinstance(e.slice, ast.Constant) and e.slice.value == 'id':
+            return True
+        return False
+
+    def value_sources(self, name: str, fi: FnInfo) -> List[ast.AST]:
+        out = []
+        for st in ast.walk(fi.fn):
+            if isinstance(st, ast.Assign) and any(isinstance(t, ast.Name) and t.id == name for t in st.targets) and enclosing_fn(st) is fi.fn:
+                out.append(st.value)
+        return out
+
+    def ids_of_value(self, v, fi: FnInfo, depth) -> List[S]:
+        if isinstance(v, ast.Dict):
+            for k, val in zip(v.keys, v.values):
+                if isinstance(k, ast.Constant) and k.value == 'id':
+                    s, _ = self.strings(val, fi, depth + 1, True)
+                    return [x.with_pt(self.pt(fi, v)) for x in s]
+        if isinstance(v, ast.Call) and isinstance(v.func, ast.Attribute) and v.func.attr == 'json_factory' and v.args:
+            s, _ = self.strings(v.args[0], fi, depth + 1, True)
+            return [x.with_pt(self.pt(fi, v)) for x in s]
+        return []
+
+    def name_strings(self, name: str, fi: FnInfo, at, depth, single, seen) -> Tuple[List[S], bool]:
+        key = (fi.fn.name, name)
+        if key in seen:
+            return [], False
+        seen = seen | {key}
+        params = [a.arg for a in fi.fn.args.args + fi.fn.args.kwonlyargs]
+        out: List[S] = []
+        comp = True
+        local_defs = 0
+        removed: List[Tuple[str, Tuple]] = []
+        for st in ast.walk(fi.fn):
+            if enclosing_fn(st) is not fi.fn:
+                continue
+            if isinstance(st, ast.Assign) and any(isinstance(t, ast.Name) and t.id == name for t in st.targets):
+                local_defs += 1
+                s, c = self.strings(st.value, fi, depth + 1, single, seen)
+                out += [x.with_pt(self.pt(fi, st)) for x in s]
+                comp = comp and c
+            elif isinstance(st, ast.AugAssign) and isinstance(st.target, ast.Name) and st.target.id == name:
+                s, c = self.strings(st.value, fi, depth + 1, single, seen)
+                out += [x.with_pt(self.pt(fi, st)) for x in s]
+                comp = comp and c
+            elif isinstance(st, (ast.For, ast.comprehension)) and isinstance(st.target, ast.Name) and st.target.id == name:
+                local_defs += 1
+                s, c = self.strings(st.iter, fi, depth + 1, False, seen)
+                if isinstance(st, ast.For):
+                    out += [x.with_pt(self.pt(fi, st)) for x in s]
+                else:
+                    out += s
+                comp = comp and c
+            elif isinstance(st, ast.For) and isinstance(st.target, ast.Tuple) and any(isinstance(x, ast.Name) and x.id == name for x in st.target.elts):
+                local_defs += 1
+                i = [isinstance(x, ast.Name) and x.id == name for x in st.target.elts].index(True)
+                it = st.iter
+                if isinstance(it, ast.Call) and isinstance(it.func, ast.Name) and it.func.id == 'zip' and i < len(it.args):
+                    s, c = self.strings(it.args[i], fi, depth + 1, False, seen)
+                    out += [x.with_pt(self.pt(fi, st)) for x in s]
+                    comp = comp and c
+                elif isinstance(it, (ast.Tuple, ast.List)) and all(isinstance(x, (ast.Tuple, ast.List)) and i < len(x.elts) for x in it.elts):
+                    for x in it.elts:
+                        s, c = self.strings(x.elts[i], fi, depth + 1, False, seen)
+                        out += [y.with_pt(self.pt(fi, st)) for y in s]
+                        comp = comp and c
+                else:
+                    out.append(S([STAR]))
+                    comp = False
+            elif isinstance(st, ast.Call) and isinstance(st.func, ast.Attribute) and isinstance(st.func.value, ast.Name) and st.func.value.id == name:
+                m = st.func.attr
+                if m in ('append', 'extend', 'insert', 'add', 'update') and st.args:
+                    s, c = self.strings(st.args[-1], fi, depth + 1, False, seen)
+                    out += [x.with_pt(self.pt(fi, st)) for x in s]
+                    comp = comp and c
+                elif m == 'remove' and st.args and isinstance(st.args[0], ast.Constant):
+                    removed.append((st.args[0].value, self.pt(fi, st)))
+        if name in params and not local_defs or (name in params):
+            for c_fi, call in self.sites_of(fi):
+                a = self.arg_for(fi, call, name)
+                if a is None:
+                    comp = False
+                    continue
+                s, c = self.strings(a, c_fi, depth + 1, single, seen)
+                out += [x.with_pt(self.pt(c_fi, call)) for x in s]
+                comp = comp and c
+            if not self.sites_of(fi):
+                comp = False
+        elif not local_defs and name not in params:
+            # module-level constant
+            v = fi.module.constants.get(name)
+            if v is not None:
+                return self.strings(v, fi, depth + 1, single, seen)
+            comp = False
+        if removed:
+            self.removals = getattr(self, 'removals', {})
+            for x in out:
+                c = x.concrete({})
+                for val, pt in removed:
+                    if c == val:
+                        self.removals.setdefault(id(x), []).append(pt)
+            self._keep = getattr(self, '_keep', [])
+            self._keep += out
+        return out, comp
+
+
+def _subst_name(node, name, value):
+    import copy
+
+    class T(ast.NodeTransformer):
+        def visit_Name(self, n):
+            if n.id == name:
+                return ast.copy_location(ast.Constant(value=value), n) if value is not None else ast.copy_location(ast.Name(id='__unknown__', ctx=ast.Load()), n)
+            return n
+    new = T().visit(copy.deepcopy(node))
+    for ch in ast.walk(new):
+        for c2 in ast.iter_child_nodes(ch):
+            c2._parent = ch
+    new._parent = getattr(node, '_parent', None)
+    return new
+
+
+# ---------------------------------------------------------------------------
+# reachability of a set of points under an option environment
+# ---------------------------------------------------------------------------
+class Reach:
+    def __init__(self, flow: Flow, col: Collector):
+        self.flow, self.col = flow, col
+        self.live_cache: Dict[tuple, Set[int]] = {}
+        self.feas_cache: Dict[tuple, bool] = {}
+        self.opt_cache: Dict[tuple, Set[str]] = {}
+        self._tested: Dict[int, Tuple[str, ...]] = {}
+        self._chain: Dict[int, Tuple[str, ...]] = {}
+        self._rel: Dict[int, Tuple[str, ...]] = {}
+        self._reach: Dict[tuple, bool] = {}
+        self._keep: list = []
+
+    def tested(self, fi: FnInfo) -> Tuple[str, ...]:
+        k = id(fi)
+        if k not in self._tested:
+            out = set()
+            for n in ast.walk(fi.fn):
+                if isinstance(n, (ast.If, ast.While, ast.IfExp)):
+                    for x in ast.walk(n.test):
+                        if isinstance(x, ast.Attribute) and isinstance(x.value, ast.Name) and x.value.id in ARG_NAMES:
+                            out.add(x.attr)
+            self._tested[k] = tuple(sorted(out))
+        return self._tested[k]
+
+    def chain_tested(self, fi: FnInfo, seen=frozenset()) -> Tuple[str, ...]:
+        k = id(fi)
+        if k in self._chain:
+            return self._chain[k]
+        if k in seen:
+            return ()
+        out = set()
+        for c_fi, _ in self.col.sites_of(fi):
+            out |= set(self.tested(c_fi)) | set(self.chain_tested(c_fi, seen | {k}))
+        out.add(CMD)
+        if not seen:
+            self._chain[k] = tuple(sorted(out))
+        return tuple(sorted(out))
+
+    def live(self, fi: FnInfo, env, p_env=None) -> Set[int]:
+        k = (id(fi),) + tuple(env.get(o, _MISSING) for o in self.tested(fi)) + (tuple(sorted(p_env.items(), key=repr)) if p_env else ())
+        if k not in self.live_cache:
+            e = self.flow.env(fi.module, env, p_env or {}, {})
+            succ = specialised_reach(fi.cfg, e)
+            self.live_cache[k] = reach_from(succ, [fi.cfg.entry.id], fi.by_id) | {fi.cfg.entry.id}
+        return self.live_cache[k]
+
+    def binding(self, fi: FnInfo, later_pts, env) -> Dict[str, object]:
+        """constant parameter values of `fi` given by the call site (among the later points of the same chain) that calls it"""
+        for c_fi, c_nid in later_pts:
+            node = c_fi.by_id.get(c_nid)
+            if node is None or node.stmt is None:
+                continue
+            for c in ast.walk(node.stmt if node.kind == 'stmt' else (node.stmt.test if node.kind == 'test' else node.stmt)):
+                if isinstance(c, ast.Call) and self.col.target_of(c, c_fi) is fi:
+                    out = {}
+                    for a in fi.fn.args.args:
+                        v = self.col.arg_for(fi, c, a.arg)
+                        if isinstance(v, ast.Constant):
+                            out[a.arg] = v.value
+                        elif isinstance(v, ast.Attribute) and isinstance(v.value, ast.Name) and v.value.id in ARG_NAMES:
+                            val = env.get(v.attr, self.flow.free_default.get(v.attr, UNKNOWN))
+                            if val is not UNKNOWN:
+                                out[a.arg] = val
+                    return out
+        return {}
+
+    def feasible(self, fi: FnInfo, env, depth=0, seen=frozenset()) -> bool:
+        k = (id(fi),) + tuple(env.get(o, _MISSING) for o in self.chain_tested(fi))
+        if k in self.feas_cache:
+            return self.feas_cache[k]
+        if id(fi) in seen or depth > 8:
+            return True
+        sites = self.col.sites_of(fi)
+        if self.col.is_factory(fi) is None and fi.fn.name in ENTRY_POINTS(self.flow):
+            ok = env.get(CMD, fi.fn.name) == fi.fn.name
+            self.feas_cache[k] = ok
+            return ok
+        if self.col.is_factory(fi) is None and (fi.fn.name in self.flow.referenced or not sites):
+            self.feas_cache[k] = True
+            return True
+        ok = False
+        for c_fi, call in sites:
+            n = c_fi.stmt_node_of(call)
+            if n is None or (n.id in self.live(c_fi, env) and self.feasible(c_fi, env, depth + 1, seen | {id(fi)})):
+                ok = True
+                break
+        if depth == 0:
+            self.feas_cache[k] = ok
+        return ok
+
+    def rel(self, x: 'S') -> Tuple[str, ...]:
+        k = id(x)
+        if k not in self._rel:
+            out = set(x.opts())
+            for fi, _ in x.pts:
+                out |= set(self.tested(fi)) | set(self.chain_tested(fi))
+            self._rel[k] = tuple(sorted(o for o in out))
+            self._keep.append(x)
+        return self._rel[k]
+
+    def reachable_s(self, x: 'S', env) -> bool:
+        k = (id(x),) + tuple(env.get(o, _MISSING) for o in self.rel(x))
+        if k not in self._reach:
+            self._reach[k] = self.reachable(x.pts, env)
+        return self._reach[k]
+
+    def reachable(self, pts, env) -> bool:
+        for i, (fi, nid) in enumerate(pts):
+            if nid >= 0:
+                p_env = self.binding(fi, pts[i + 1:], env) if fi.fn.args.args else {}
+                if nid not in self.live(fi, env, p_env):
+                    return False
+            if not self.feasible(fi, env):
+                return False
+        return True
+
+    def options_of(self, pts, depth=0) -> Dict[str, int]:
+        """finite-domain options tested on the way to these points -> distance (0: a test enclosing the statement; n: n call sites up)"""
+        out: Dict[str, int] = {}
+
+        def put(d, o, v):
+            if o not in d or v < d[o]:
+                d[o] = v
+        for fi, nid in pts:
+            k = (id(fi), nid)
+            if k in self.opt_cache:
+                for o, v in self.opt_cache[k].items():
+                    put(out, o, v + depth)
+                continue
+            self.opt_cache[k] = {}
+            acc: Dict[str, int] = {}
+            node = fi.by_id.get(nid)
+            st = node.stmt if node is not None else None
+            p = st
+            while p is not None and p is not fi.fn:
+                par = getattr(p, '_parent', None)
+                if isinstance(par, (ast.If, ast.While)):
+                    for x in ast.walk(par.test):
+                        if isinstance(x, ast.Attribute) and isinstance(x.value, ast.Name) and x.value.id in ARG_NAMES and x.attr in self.flow.fin:
+                            put(acc, x.attr, 0)
+                p = par
+            if depth < 6:
+                for c_fi, call in self.col.sites_of(fi):
+                    for o, v in self.options_of([self.col.pt(c_fi, call)], depth + 1).items():
+                        put(acc, o, v - depth)
+            self.opt_cache[k] = acc
+            for o, v in acc.items():
+                put(out, o, v + depth)
+        return out
+
+
+
+# ---------------------------------------------------------------------------
+# reach conditions as sets of partial option assignments (cubes)
+# ---------------------------------------------------------------------------
+class TooBig(Exception):
+    pass
+
+
+def cube_merge(a: tuple, b: tuple) -> Optional[tuple]:
+    d = dict(a)
+    for k, v in b:
+        if k in d:
+            if d[k] != v:
+                return None
+        else:
+            d[k] = v
+    return tuple(sorted(d.items(), key=lambda kv: kv[0]))
+
+
+def dnf_and(A: Set[tuple], B: Set[tuple], cap=6000) -> Set[tuple]:
+    out = set()
+    for a in A:
+        for b in B:
+            m = cube_merge(a, b)
+            if m is not None:
+                out.add(m)
+                if len(out) > cap:
+                    raise TooBig()
+    return out
+
+
+def dnf_simplify(A: Set[tuple]) -> Set[tuple]:
+    """drop cubes that are implied by a more general cube"""
+    lst = sorted(A, key=len)
+    keep: List[tuple] = []
+    for c in lst:
+        cs = set(c)
+        if not any(set(k) <= cs for k in keep):
+            keep.append(c)
+    return set(keep)
+
+
+class Cond:
+    """reach conditions of program points / string templates as DNF over the finite-domain options"""
+
+    def __init__(self, reach: 'Reach'):
+        self.reach, self.flow, self.col = reach, reach.flow, reach.col
+        self.pt_cache: Dict[tuple, Set[tuple]] = {}
+        self.feas_cache: Dict[int, Set[tuple]] = {}
+        self.s_cache: Dict[int, Optional[Set[tuple]]] = {}
+        self._keep: list = []
+
+    def domain(self, o):
+        return sorted(self.flow.fin[o].values, key=repr)
+
+    def anc_opts(self, fi: FnInfo, nid: int) -> List[str]:
+        node = fi.by_id.get(nid)
+        st = node.stmt if node is not None else None
+        out = set()
+        p = st
+        first = True
+        while p is not None and p is not fi.fn:
+            par = getattr(p, '_parent', None)
+            tests = []
+            if isinstance(par, (ast.If, ast.While)):
+                tests.append(par.test)
+            if first and node is not None and node.kind == 'test' and isinstance(st, (ast.If, ast.While)):
+                pass
+            for t in tests:
+                for x in ast.walk(t):
+                    if isinstance(x, ast.Attribute) and isinstance(x.value, ast.Name) and x.value.id in ARG_NAMES and x.attr in self.flow.fin:
+                        out.add(x.attr)
+            first = False
+            p = par
+        return sorted(out)
+
+    def point(self, fi: FnInfo, nid: int, later_pts) -> Set[tuple]:
+        """assignments (over the options of the enclosing tests and of `arg.X` arguments bound to tested parameters) under which the node is live"""
+        if nid < 0:
+            return {()}
+        # parameters bound by the call site in the same chain
+        bind_opts: Dict[str, str] = {}
+        consts: Dict[str, object] = {}
+        site_key = None
+        for c_fi, c_nid in later_pts:
+            node = c_fi.by_id.get(c_nid)
+            if node is None or node.stmt is None:
+                continue
+            found = False
+            for c in ast.walk(node.stmt):
+                if isinstance(c, ast.Call) and self.col.target_of(c, c_fi) is fi:
+                    for a in fi.fn.args.args:
+                        v = self.col.arg_for(fi, c, a.arg)
+                        if isinstance(v, ast.Constant):
+                            consts[a.arg] = v.value
+                        elif isinstance(v, ast.Attribute) and isinstance(v.value, ast.Name) and v.value.id in ARG_NAMES:
+                            bind_opts[a.arg] = v.attr
+                    site_key = (id(c_fi), c_nid)
+                    found = True
+                    break
+            if found:
+                break
+        key = (id(fi), nid, site_key)
+        if key in self.pt_cache:
+            return self.pt_cache[key]
+        opts = set(self.anc_opts(fi, nid))
+        # parameters that the enclosing tests mention and that are bound to options
+        node = fi.by_id.get(nid)
+        p = node.stmt if node is not None else None
+        tested_names = set()
+        while p is not None and p is not fi.fn:
+            par = getattr(p, '_parent', None)
+            if isinstance(par, (ast.If, ast.While)):
+                tested_names |= {x.id for x in ast.walk(par.test) if isinstance(x, ast.Name)}
+            p = par
+        for pname, o in bind_opts.items():
+            if pname in tested_names and o in self.flow.fin:
+                opts.add(o)
+        opts = sorted(opts)
+        size = 1
+        for o in opts:
+            size *= len(self.flow.fin[o].values)
+        if size > 20000:
+            raise TooBig()
+        out = set()
+        for combo in itertools.product(*[self.domain(o) for o in opts]):
+            env = dict(zip(opts, combo))
+            p_env = dict(consts)
+            for pname, o in bind_opts.items():
+                v = env.get(o, self.flow.free_default.get(o, UNKNOWN))
+                if v is not UNKNOWN:
+                    p_env[pname] = v
+            if nid in self.reach.live(fi, env, p_env):
+                out.add(tuple(sorted(env.items(), key=lambda kv: kv[0])))
+        out = dnf_simplify(out) if len(out) > 1 else out
+        self.pt_cache[key] = out
+        return out
+
+    def feasible(self, fi: FnInfo, seen=frozenset()) -> Set[tuple]:
+        k = id(fi)
+        if k in self.feas_cache:
+            return self.feas_cache[k]
+        if k in seen or len(seen) > 10:
+            return {()}
+        if self.col.is_factory(fi) is None and fi.fn.name in ENTRY_POINTS(self.flow):
+            out = {((CMD, fi.fn.name),)}
+            self.feas_cache[k] = out
+            return out
+        sites = self.col.sites_of(fi)
+        if self.col.is_factory(fi) is None and (fi.fn.name in self.flow.referenced or not sites):
+            self.feas_cache[k] = {()}
+            return {()}
+        out: Set[tuple] = set()
+        for c_fi, call in sites:
+            n = c_fi.stmt_node_of(call)
+            if n is None:
+                out = {()}
+                break
+            a = self.point(c_fi, n.id, ())
+            b = self.feasible(c_fi, seen | {k})
+            out |= dnf_and(a, b)
+            if () in out:
+                out = {()}
+                break
+        out = dnf_simplify(out)
+        if not seen:
+            self.feas_cache[k] = out
+        return out
+
+    def of(self, x: S) -> Optional[Set[tuple]]:
+        """DNF under which every point of the template is live and its function can be called; None if it cannot be represented"""
+        k = id(x)
+        if k in self.s_cache:
+            return self.s_cache[k]
+        self._keep.append(x)
+        try:
+            cur: Set[tuple] = {()}
+            done = set()
+            for i, (fi, nid) in enumerate(x.pts):
+                if (id(fi), nid) in done:
+                    continue
+                done.add((id(fi), nid))
+                cur = dnf_and(cur, self.point(fi, nid, x.pts[i + 1:]))
+                cur = dnf_and(cur, self.feasible(fi))
+                if not cur:
+                    break
+            cur = dnf_simplify(cur)
+        except TooBig:
+            cur = None
+        self.s_cache[k] = cur
+        return cur
+
+# ---------------------------------------------------------------------------
 def check_ids(ctx, rep):
-    return
+    from props.c19 import Liveness, Readers, literal_type
+    flow = Flow(ctx)
+    readers = Readers(ctx)
+    col = Collector(ctx, flow, readers)
+    reach = Reach(flow, col)
+    static_live = Liveness(ctx, readers)
+
+    # ---- definitions -----------------------------------------------------------------
+    defs: List[Tuple[S, str]] = []
+    for fi in col.all_infos():
+        for d in ast.walk(fi.fn):
+            if enclosing_fn(d) is not fi.fn:
+                continue
+            idv = None
+            if isinstance(d, ast.Dict):
+                for k, v in zip(d.keys, d.values):
+                    if isinstance(k, ast.Constant) and k.value == 'id':
+                        idv = v
+                if idv is not None and col.is_factory(fi) is None and static_live.slot_dead(d):
+                    continue
+            elif isinstance(d, ast.Assign) and len(d.targets) == 1 and isinstance(d.targets[0], ast.Subscript) and isinstance(d.targets[0].slice, ast.Constant) \
+                    and d.targets[0].slice.value == 'id':
+                idv = d.value
+            if idv is None:
+                continue
+            s, _ = col.strings(idv, fi, 0, True)
+            if not s:
+                s = [S([STAR])]
+            for x in s:
+                if not any(isinstance(p, str) and any(ch.isalnum() for ch in p) for p in x.parts) and not x.opts():
+                    continue    # a pure wildcard (ids taken from data or from other objects at run time) says nothing about which constant ids exist
+                defs.append((x.with_pt(col.pt(fi, d)), f"{fi.fn.name}:{getattr(d, 'lineno', 0)}"))
+    # ids derived from existing ids at run time (`json_object['id'] + '.unres'`): wildcard templates, already in the list through the rule above
+    if len(defs) < 80:
+        raise AnalysisError(f"only {len(defs)} identifier definitions found")
+
+    # ---- dead slots that depend on the option values: X['k'] = <value defining ids> --------------------------------
+    # (definition, points of the literal that X is, key) — if under an environment every reaching literal of X is of a type that never reads k, the
+    # definitions inside the stored value are not emitted as far as torchtree is concerned
+    cond_dead: Dict[int, List[Tuple[FnInfo, str, str]]] = {}
+    for fi in [f for infos in flow.fns.values() for f in infos]:
+        for st in ast.walk(fi.fn):
+            if isinstance(st, ast.Assign) and len(st.targets) == 1 and isinstance(st.targets[0], ast.Subscript) and isinstance(st.targets[0].value, ast.Name) \
+                    and isinstance(st.targets[0].slice, ast.Constant) and isinstance(st.targets[0].slice.value, str) and isinstance(st.value, ast.Name) \
+                    and enclosing_fn(st) is fi.fn:
+                cond_dead.setdefault(id(fi), []).append((fi, st.targets[0].value.id, st.targets[0].slice.value, st.value.id, st))
+
+    dead_plan: Dict[int, list] = {}
+    dead_memo: Dict[tuple, Optional[str]] = {}
+    _keep_defs: list = []
+
+    def plan_of(defn: S):
+        """per point that is `v = <value>`: the consumers of v as slots (or None when some consumer keeps the value alive)"""
+        k = id(defn)
+        if k in dead_plan:
+            return dead_plan[k]
+        _keep_defs.append(defn)
+        plans = []
+        for fi, nid in defn.pts:
+            node = fi.by_id.get(nid)
+            s0 = node.stmt if node is not None else None
+            if not (isinstance(s0, ast.Assign) and len(s0.targets) == 1 and isinstance(s0.targets[0], ast.Name)) or col.is_factory(fi) is not None:
+                continue
+            vname = s0.targets[0].id
+            uses = [n for n in ast.walk(fi.fn) if isinstance(n, ast.Name) and n.id == vname and isinstance(n.ctx, ast.Load) and enclosing_fn(n) is fi.fn]
+            consumers = [u for u in uses if not (isinstance(getattr(u, '_parent', None), ast.Subscript) and isinstance(u._parent.ctx, ast.Store) and u._parent.value is u)]
+            if not consumers:
+                continue
+            slots = []
+            for u in consumers:
+                par = getattr(u, '_parent', None)
+                if isinstance(par, ast.Assign) and len(par.targets) == 1 and isinstance(par.targets[0], ast.Subscript) and isinstance(par.targets[0].value, ast.Name) \
+                        and isinstance(par.targets[0].slice, ast.Constant) and isinstance(par.targets[0].slice.value, str) and par.value is u:
+                    xname, key_ = par.targets[0].value.id, par.targets[0].slice.value
+                    lits = []
+                    for a in ast.walk(fi.fn):
+                        if isinstance(a, ast.Assign) and any(isinstance(t, ast.Name) and t.id == xname for t in a.targets) and isinstance(a.value, ast.Dict) and enclosing_fn(a) is fi.fn:
+                            n2 = fi.stmt_node_of(a)
+                            if n2 is not None:
+                                lits.append((n2.id, literal_type(a.value)))
+                    slots.append(('store', fi, key_, lits))
+                elif isinstance(par, ast.Dict):
+                    key_ = None
+                    for k_, v_ in zip(par.keys, par.values):
+                        if v_ is u and isinstance(k_, ast.Constant):
+                            key_ = k_.value
+                    n2 = fi.stmt_node_of(par)
+                    slots.append(('dict', fi, key_, [(n2.id if n2 is not None else -1, literal_type(par))]))
+                else:
+                    slots = None
+                    break
+            if slots:
+                plans.append(slots)
+        dead_plan[k] = plans
+        return plans
+
+    def dead_under(defn: S, env) -> Optional[str]:
+        """the definition is a value `v = …` whose every consumer puts it at a key that the receiving object's reader ignores under env"""
+        plans = plan_of(defn)
+        if not plans:
+            return None
+        mk = (id(defn),) + tuple(sorted(env.items(), key=lambda kv: kv[0]))
+        if mk in dead_memo:
+            return dead_memo[mk]
+        out = None
+        for slots in plans:
+            reasons = []
+            for kind, fi, key_, lits in slots:
+                why = None
+                if key_ is not None:
+                    live = reach.live(fi, env)
+                    types = [t for nid2, t in lits if nid2 < 0 or nid2 in live]
+                    if kind == 'dict' and not types:
+                        why = 'literal not built under these option values'
+                    elif types and all(t is not None and static_live._reads(t, key_) is False for t in types):
+                        why = f"placed at '{key_}' of a {'/'.join(sorted(set(types)))} object, whose reader never reads that key"
+                reasons.append(why)
+            if reasons and all(reasons):
+                real = [w for w in reasons if w != 'literal not built under these option values']
+                if real:
+                    out = real[0]
+                    break
+        dead_memo[mk] = out
+        return out
+
+    # ---- references ------------------------------------------------------------------
+    refs: List[Tuple[S, str, str]] = []
+    n_sites = 0
+    for fi in col.all_infos():
+        for d in ast.walk(fi.fn):
+            if not isinstance(d, ast.Dict) or enclosing_fn(d) is not fi.fn:
+                continue
+            t = literal_type(d)
+            if t is None:
+                continue
+            info = readers.info(t)
+            if info is None:
+                continue
+            if col.is_factory(fi) is None and static_live.slot_dead(d):
+                continue
+            for k, v in zip(d.keys, d.values):
+                if not (isinstance(k, ast.Constant) and k.value in info.ref_keys):
+                    continue
+                n_sites += 1
+                s, _ = col.strings(v, fi, 0, False)
+                for x in s:
+                    refs.append((x.with_pt(col.pt(fi, d)), f"{t}.{k.value}", f"{fi.module.path}:{getattr(v, 'lineno', d.lineno)}"))
+    rep.analysed['C19.R'] = {'definitions': len(defs), 'reference_sites': n_sites, 'reference_strings': len(refs)}
+    if n_sites < 60 or len(refs) < 80:
+        raise AnalysisError(f"only {n_sites} reference sites / {len(refs)} reference strings found")
+
+    removals = getattr(col, 'removals', {})
+    checked = 0
+    seen_keys = set()
+    static_rx = {}
+    for i, (dfn, dl) in enumerate(defs):
+        static_rx[i] = re.compile(dfn.regex({}))
+    CAP = 3000
+
+    def domain(o):
+        return sorted(flow.fin[o].values, key=repr)
+
+    def product_of(dims, cap):
+        # dims: option -> distance; nearest tests first, then small domains
+        size = 1
+        kept = []
+        for o in sorted(dims, key=lambda o: (dims[o], len(flow.fin[o].values))):
+            n = len(flow.fin[o].values)
+            if size * n <= cap:
+                kept.append(o)
+                size *= n
+        return kept
+
+    class _Cmd:
+        values = set(ENTRY_POINTS(flow))
+    flow.fin[CMD] = _Cmd
+
+    class _Cmd:
+        values = set(ENTRY_POINTS(flow))
+    flow.fin[CMD] = _Cmd
+
+    def domain(o):
+        return sorted(flow.fin[o].values, key=repr)
+
+    cond = Cond(reach)
+
+    dead_opts_memo: Dict[int, Set[str]] = {}
+
+    def dead_opts(dfn: S) -> Set[str]:
+        """options that decide which literal receives the value a definition is part of"""
+        k = id(dfn)
+        if k not in dead_opts_memo:
+            out = set()
+            for slots in plan_of(dfn):
+                for kind, fi, key_, lits in slots:
+                    for nid2, _ in lits:
+                        if nid2 >= 0:
+                            out |= set(cond.anc_opts(fi, nid2))
+            dead_opts_memo[k] = out
+        return dead_opts_memo[k]
+
+    n_skipped = 0
+    grouped: Dict[tuple, list] = {}
+    pending: list = []
+    for r, slot, W in refs:
+        if any(p == STAR for p in r.parts):
+            continue
+        hole_opts = sorted(r.opts())
+        if any(o not in flow.fin for o in hole_opts):
+            continue
+        r_dnf = cond.of(r)
+        if r_dnf is None:
+            n_skipped += 1
+            continue
+        failing = []
+        n_env = 0
+        for cube in sorted(r_dnf, key=repr):
+            base = dict(cube)
+            free_holes = [o for o in hole_opts if o not in base]
+            for hcombo in itertools.product(*[domain(o) for o in free_holes]):
+                env0 = {**base, **dict(zip(free_holes, hcombo))}
+                name = r.concrete({**flow.free_default, **env0})
+                if name is None:
+                    continue
+                if any(reach.reachable([pt], env0) for pt in removals.get(id(r), [])):
+                    continue
+                cands = []
+                for i, (dfn, dl) in enumerate(defs):
+                    if dfn.opts():
+                        if re.fullmatch(dfn.regex({}), name):
+                            cands.append(i)
+                    elif static_rx[i].fullmatch(name):
+                        cands.append(i)
+                cand_dnfs = []
+                extra: Set[str] = set()
+                covered = False
+                for i in cands:
+                    dfn = defs[i][0]
+                    d = cond.of(dfn)
+                    if d is None:
+                        d = {()}
+                    # cubes compatible with the reference's own assignment, without the keys it already fixes
+                    res = set()
+                    for c in d:
+                        okc = True
+                        rest = []
+                        for k_, v_ in c:
+                            if k_ in env0:
+                                if env0[k_] != v_:
+                                    okc = False
+                                    break
+                            else:
+                                rest.append((k_, v_))
+                        if okc:
+                            res.add(frozenset(rest))
+                    if not res:
+                        continue
+                    dopts = {o for o in dead_opts(dfn) if o in flow.fin and o not in env0}
+                    hopts = {o for o in dfn.opts() if o in flow.fin and o not in env0}
+                    if frozenset() in res and not dopts and not hopts and not dfn.opts():
+                        if not dead_under(dfn, env0):
+                            covered = True
+                            break
+                    cand_dnfs.append((i, res))
+                    for c in res:
+                        extra |= {k_ for k_, _ in c}
+                    extra |= dopts | hopts
+                if covered:
+                    n_env += 1
+                    continue
+                extra = sorted(o for o in extra if o in flow.fin)
+                size = 1
+                for o in extra:
+                    size *= len(flow.fin[o].values)
+                if size > 50000:
+                    n_skipped += 1
+                    continue
+                bad_env = None
+                for xcombo in itertools.product(*[domain(o) for o in extra]):
+                    xenv = dict(zip(extra, xcombo))
+                    env = {**env0, **xenv}
+                    n_env += 1
+                    items = set(xenv.items())
+                    ok = False
+                    for i, res in cand_dnfs:
+                        dfn = defs[i][0]
+                        if dfn.opts() and not re.fullmatch(dfn.regex({**flow.free_default, **env}), name):
+                            continue
+                        if any(c <= items for c in res) and not dead_under(dfn, env):
+                            ok = True
+                            break
+                    if not ok:
+                        bad_env = env
+                        break
+                if bad_env is not None:
+                    failing.append((name, bad_env))
+                    break
+            if len(failing) >= 6:
+                break
+        checked += 1
+        fn_name = r.pts[-1][0].fn.name if r.pts else '?'
+        key = f"{slot}::{r.text()}@{fn_name}"
+        if key in seen_keys:
+            continue
+        seen_keys.add(key)
+        if failing:
+            common = set(failing[0][1].items())
+            for _, e in failing[1:]:
+                common &= set(e.items())
+            flags = sorted(o for o, v in common if v is True and o in flow.fin and set(flow.fin[o].values) == {True, False})
+            if flags:
+                pending.append((slot, fn_name, flags, failing[0][0], failing, W))
+                continue
+            name, env = failing[0]
+            envtxt = ', '.join(f"{k}={v!r}" for k, v in sorted(env.items())) or 'every option value'
+            rep.bad('C19.R', key, W, {'environments': [', '.join(f"{k}={v!r}" for k, v in sorted(e.items())) for _, e in failing[:6]], 'count': len(failing)},
+                    f"the emitted {slot} refers to '{name}', but under [{envtxt}] no object with that id is emitted (no definition of a matching id is reachable "
+                    f"under these option values): torchtree stops with: Object with ID `{name}' not found")
+        else:
+            rep.ok('C19.R', key, W, {'reach_cubes': len(r_dnf), 'environments_checked': n_env})
+    # references that only dangle when a switch is on are one finding per switch and referencing object; a reference that needs several
+    # switches is filed under the one that explains most dangling references of that object
+    votes: Dict[tuple, int] = {}
+    for slot, fn_name, flags, name, failing, W in pending:
+        for f in flags:
+            votes[(slot, fn_name, f)] = votes.get((slot, fn_name, f), 0) + 1
+    for slot, fn_name, flags, name, failing, W in pending:
+        best = max(flags, key=lambda f: (votes[(slot, fn_name, f)], f))
+        grouped.setdefault((slot, fn_name, (best,)), []).append((name, failing, W))
+    for (slot, fn_name, flags), items in sorted(grouped.items()):
+        names = sorted({n for n, _, _ in items})
+        name, failing, W = items[0]
+        env = failing[0][1]
+        envtxt = ', '.join(f"{k}={v!r}" for k, v in sorted(env.items()))
+        rep.bad('C19.R', f"{slot}@{fn_name}::with::{'+'.join('--' + f for f in flags)}", W,
+                {'ids': names, 'example_environment': envtxt},
+                f"with {' '.join('--' + f for f in flags)} the {slot} emitted by {fn_name}() refers to {names[:8]}{' …' if len(names) > 8 else ''}, but no object with such an id is "
+                f"emitted under e.g. [{envtxt}]: torchtree stops with: Object with ID `{names[0]}' not found")
+    rep.analysed['C19.R']['references_not_representable'] = n_skipped
+    rep.analysed['C19.R']['references_checked'] = checked
